@@ -16,6 +16,7 @@ def answer (line : String) : String :=
     | "fab" => fabLine toks
     | "fabfine" => fabFineLine toks
     | "fabfault" => fabFaultLine toks
+    | "ldfab" => ldfabLine toks
     | "aoarm" => aoarmLine toks
     | "ao" => aoLine toks
     | "ps" => psLine toks
